@@ -104,13 +104,14 @@ def harness_build(dbg=True, extra_flags=(), tag="", kind="std", vectorize=False)
 
 
 def prune_cache(keep=6):
-    """Keep the cache small: drop all but the newest `keep` harness builds."""
+    """Keep the cache small: drop all but the newest builds of each kind."""
     if not os.path.isdir(CACHE):
         return
-    ds = [os.path.join(CACHE, x) for x in os.listdir(CACHE) if x.startswith("h_")]
-    ds.sort(key=os.path.getmtime, reverse=True)
-    for d in ds[keep:]:
-        subprocess.run(["rm", "-rf", d])
+    for prefix, k in (("h_", keep), ("m_", 3), ("c_", 6)):      # harness / API-matrix / concurrency builds
+        ds = [os.path.join(CACHE, x) for x in os.listdir(CACHE) if x.startswith(prefix)]
+        ds.sort(key=os.path.getmtime, reverse=True)
+        for d in ds[k:]:
+            subprocess.run(["rm", "-rf", d])
 
 
 def run_lines(exe, lines, timeout=3600):
